@@ -192,7 +192,7 @@ func runEP(ep, name string, content []byte) result {
 	panic("harness: unknown entry point " + ep)
 }
 
-const wallFactor = 25
+const wallFactor = 100
 
 // cpuTime: user+system CPU time of this process so far.
 func cpuTime() time.Duration {
